@@ -24,7 +24,8 @@ LEVEL_TEXT = (
 )
 LEVEL_NOTE = (
     "Trusted: virtual loop, scripted gateway, asyncio. Judged: (1) the k-th new cEMI frame of a connection carries counter k mod "
-    "256, the first one 0; a repetition carries the counter of the frame it repeats; (2) a (connection, counter, frame) is "
+    "256, the first one 0 (a counter skipped because a send last transmitted on the previous connection failed gets its own "
+    "mechanism string); a repetition carries the counter of the frame it repeats; (2) a (connection, counter, frame) is "
     "transmitted at most twice; (3) no TunnellingRequest for another frame while an earlier send that already transmitted has "
     "not returned; (4) send_cemi returned normally => an ACK with the channel and counter of one of that send's transmissions and "
     "E_NO_ERROR was delivered after that transmission on the same connection. Not judged: which exception a failed send raises, "
@@ -123,6 +124,7 @@ def judge_history(log, udp=True):
     txs = {}  # tag -> list of (log index, epoch, ch, seq)
     acks = []  # (log index, epoch, ch, seq, status)
     open_sends = set()  # tags transmitted whose send has not returned
+    phantom = offset = 0  # sends that failed in this epoch without having transmitted on it / tolerated counter offset
     done = set()
     for idx, (t, kind, info) in enumerate(log):
         typ = info.get("type")
@@ -130,6 +132,7 @@ def judge_history(log, udp=True):
             epoch += 1
             epoch_ch = info["ch"]
             tags_in_epoch = []
+            phantom = offset = 0
             stats["epochs"] += 1
         elif kind == "tx" and typ == "TunnellingRequest":
             stats["tx_requests"] += 1
@@ -138,10 +141,17 @@ def judge_history(log, udp=True):
             if ch != epoch_ch:
                 stats["requests_on_closed_channel_recorded"] += 1
             if tag not in tags_in_epoch:
-                expected = len(tags_in_epoch) & 0xFF
+                expected = (len(tags_in_epoch) + offset) & 0xFF
+                with_phantom = (len(tags_in_epoch) + phantom) & 0xFF
                 tags_in_epoch.append(tag)
                 counter_of[(epoch, tag)] = seq
-                if seq != expected:
+                if seq != expected and phantom > offset and seq == with_phantom:
+                    # a send that was last transmitted on an EARLIER connection failed during this one and still
+                    # consumed a counter of this connection
+                    offset = phantom
+                    problems.append(("counter-of-new-connection-consumed-by-send-that-failed-on-the-previous-one",
+                                     {"tag": tag, "counter": seq, "expected": expected, "epoch": epoch, "at": idx}))
+                elif seq != expected:
                     if expected == 0:
                         problems.append(("counter-not-restarted-at-0-on-new-connection",
                                          {"tag": tag, "counter": seq, "epoch": epoch, "at": idx}))
@@ -173,6 +183,8 @@ def judge_history(log, udp=True):
             open_sends.discard(tag)
             done.add(tag)
             stats[kind] += 1
+            if kind == "send_fail" and udp and txs.get(tag) and txs[tag][-1][1] < epoch:
+                phantom += 1
             if kind == "send_ok" and udp:
                 mine = txs.get(tag, [])
                 own = any(a_idx > t_idx and a_ep == t_ep and a_ch == t_ch and a_seq == t_seq and a_st == "E_NO_ERROR"
@@ -272,10 +284,10 @@ def all_scripts(max_len):
 
 
 def run(ctx):
-    n_all = ctx.scale(3, 4)
+    n_all = ctx.scale(3, 5)
     n_inj = ctx.scale(1, 2)
     ctx.rule = (f"all ACK-behaviour strings over {sorted(LETTERS.values())} of length <= {n_all} (later transmissions: ok) x modes "
-                f"{MODES} with 3 sends; strings of length <= {n_inj} x 3 modes x server DisconnectRequest at every loop iteration of "
+                f"{MODES} with 3 sends; strings of length <= {n_inj} (+ 'll','lt') x 3 modes x server DisconnectRequest at every loop iteration of "
                 "the baseline; 300-send wrap runs (UDP with sparse faults, TCP with server disconnects); distinct = (transport, mode, "
                 "event-kind string of the wire history)")
     ctx.require("tx_requests", "acks_delivered", "repetitions", "epochs", "send_ok", "send_fail", "foreign_acks_delivered",
@@ -292,7 +304,7 @@ def run(ctx):
     ctx.extra["bound"] = {"behaviour_string_length": n_all, "sends": 3, "disconnect_injection_string_length": n_inj}
 
     # server disconnect at every loop iteration of the baseline of that (script, mode)
-    for script in all_scripts(n_inj):
+    for script in list(all_scripts(n_inj)) + (["ll", "lt"] if n_inj < 2 else []):
         for mode in ("seq", "conc", "stag"):
             i += 1
             if not ctx.mine(i):
